@@ -24,6 +24,16 @@ Definition base_ok (s : st) (idx : Z) (h : option Q) : bool :=
   | _, _ => false
   end.
 
+(* the mesh-acceleration test of one poll step *)
+Definition poll_hist_ok (o : opts) (SI : Q) (ev : poll_ev) (s2 : st) : bool :=
+  let s3 := poll_phase o SI ev s2 in
+  if exn s3 then true else
+  let a := poll_loop o (pe_ncand ev) (pe_evals ev) (mkP s2 0 (cur s2) 0) in
+  let good := qltb SI (p_best a) in
+  if negb good && o_accel o && (o_accel_steps o <? piter s3)
+  then base_ok s3 (piter s3 - o_accel_steps o) (pe_hist ev)
+  else true.
+
 Definition iter_hist_ok (o : opts) (s : st) (ev : iter_ev) : bool :=
   if fin s || exn s then true else
   let s0 := lock_ks o s in
@@ -32,14 +42,7 @@ Definition iter_hist_ok (o : opts) (s : st) (ev : iter_ev) : bool :=
   let '(s2, dopoll) := poll_decision o s1 in
   let s3 := if dopoll then poll_phase o (ie_SI ev) (ie_poll ev) s2 else s2 in
   if exn s3 then true else
-  let okP :=
-    if dopoll then
-      let a := poll_loop o (pe_ncand (ie_poll ev)) (pe_evals (ie_poll ev)) (mkP s2 0 (cur s2) 0) in
-      let good := qltb (ie_SI ev) (p_best a) in
-      if negb good && o_accel o && (o_accel_steps o <? piter s3)
-      then base_ok s3 (piter s3 - o_accel_steps o) (pe_hist (ie_poll ev))
-      else true
-    else true in
+  let okP := if dopoll then poll_hist_ok o (ie_SI ev) (ie_poll ev) s2 else true in
   let okT := if o_stall o - 1 <? piter s3 then base_ok s3 (piter s3 - o_stall o) (ie_stall ev) else true in
   okP && okT.
 
